@@ -46,6 +46,7 @@ def run(chk):
     r = chk.tlc("mc/MC_C12", "mc/MC_C12_%s.cfg" % t, workers=16, label="MC_C12 " + t, timeout=7000)
     classes = loss_classes()
     cache = {}
+    reused = {}
     n_re = 0
     modes_seen = set()
     for case in r.emitted:
@@ -96,6 +97,17 @@ def run(chk):
                 continue
             results[fam] = (val, grad, hess)
             chk.count(1, (fam, uniq))
+            # the same numbers from ONE long-lived loss object per family and tomography that is re-configured for every
+            # case (other data, other weights of the same layout), the way an estimator re-uses its loss over a sequence
+            try:
+                lr = reused.setdefault((fam, key), L())
+                lr.set_from_standard_qtomography_option_data(qt, opt, [(n, f.copy()) for n, f in data], True, not fam.endswith("fast"))
+                val2 = float(lr.value(v.copy()))
+                grad2 = np.asarray(lr.gradient(v.copy()), dtype=float)
+                if abs(val2 - val) > 1e-9 * (1 + abs(val)) or not coords.close(grad2, grad, 1e-8):
+                    bad("reconfigured", "a re-configured loss object gives value %r, a fresh one %r (gradient max dev %.3g)" % (val2, val, float(np.max(np.abs(grad2 - grad)))), fam)
+            except Exception as e:
+                bad("reconfigured:exception", "%s: %r" % (fam, e), fam)
             modes_seen.add((fam, mode))
             # weights held after configuration
             if not is_re:
